@@ -105,6 +105,11 @@ structure St where
   box : Option (List (Float × Float)) := none
   hintN : Nat := 0
   hintPath : Bool := true
+  /-- `space=proj`: the constrained validator; `hintPath` is then the traversal's `reached` and `hintSat` is `isSatisfied(s2)` -/
+  constrained : Bool := false
+  hintSat : Bool := true
+  /-- the traversal, when it gives up for geometric reasons, asked about one more candidate (not a state of the motion) -/
+  hintExtra : Bool := false
   cv : Nat := 0
   ci : Nat := 0
 
@@ -149,6 +154,7 @@ def init (ts : List String) : Option St :=
     | "dubinssym", [_] => mk none 3 .dubins
     | "rs", [_] => mk none 3 .reedsShepp
     | "owen", [_] => mk none 4 .dubins3D
+    | "proj", [_] => (mk none 3 .discrete).map (fun st => { st with constrained := true })
     | "vana", [_] => mk none 5 .dubins3D
     | "vanaowen", [_] => mk none 5 .dubins3D
     | _, _ => none
@@ -212,6 +218,19 @@ def step (st : St) (ts : List String) : St × String :=
     | some k, "0" => ({ st with hintN := k, hintPath := false }, "ok")
     | some k, "1" => ({ st with hintN := k, hintPath := true }, "ok")
     | _, _ => (st, "bad-op")
+  | ["hint", k, p, q] =>
+    match k.toNat?, p, q with
+    | some k, "0", "0" => ({ st with hintN := k, hintPath := false, hintSat := false }, "ok")
+    | some k, "0", "1" => ({ st with hintN := k, hintPath := false, hintSat := true }, "ok")
+    | some k, "1", "0" => ({ st with hintN := k, hintPath := true, hintSat := false }, "ok")
+    | some k, "1", "1" => ({ st with hintN := k, hintPath := true, hintSat := true }, "ok")
+    | _, _, _ => (st, "bad-op")
+  | ["hint", k, p, q, x] =>
+    match k.toNat? with
+    | some k =>
+      if (p != "0" && p != "1") || (q != "0" && q != "1") || (x != "0" && x != "1") then (st, "bad-op")
+      else ({ st with hintN := k, hintPath := p == "1", hintSat := q == "1", hintExtra := x == "1" }, "ok")
+    | none => (st, "bad-op")
   | "list" :: c :: t :: flags =>
     match c.toNat?, t.toNat? with
     | some count, some total =>
@@ -249,6 +268,27 @@ def step (st : St) (ts : List String) : St × String :=
           let invs := match st.box with
             | some _ => " inv=" ++ qstr invl
             | none => ""
+          if st.constrained then
+            -- ConstrainedMotionValidator (as fixed by F120-F122); n = m + 1 with m traversal states
+            let m := n - 1
+            let r := if op == "cm2" then constrained2 st.hintSat m st.hintPath v
+              else constrained3 (op == "cm3") st.hintSat m st.hintPath v
+            let st' := { st with cv := st.cv + r.dValid, ci := st.ci + r.dInvalid }
+            let vb := if r.verdict then "1" else "0"
+            let b01 := fun (x : Bool) => if x then "1" else "0"
+            let tail := s!"cnt={st.cv}/{st.ci}->{st'.cv}/{st'.ci} amb=0 reached={b01 st.hintPath} sat={b01 st.hintSat}"
+            -- a traversal that visited all its m states, then gave up, looked at one more candidate ('x')
+            let ran := r.queries.filter (fun j => j != n)
+            let gaveUp := st.hintExtra && !st.hintPath && ran.length == m && ran.all v
+            let qs := if gaveUp then (if r.queries.isEmpty then "x" else qstr r.queries ++ ",x") else qstr r.queries
+            if op == "cm2" then (st', s!"v={vb} n={n} q={qs} {tail}")
+            else
+              let lv := if r.wroteSecond then "written" else "untouched"
+              let lvs := if op == "cm3n" then "null" else match r.back with
+                | some k => s!"g{k}"
+                | none => "untouched"
+              (st', s!"v={vb} n={n} lv={lv} lvs={lvs} q={qs} {tail}")
+          else
           let r := if op == "cm2" then checkMotion2 st.val st.hintPath n v else checkMotion3 st.val st.hintPath n v
           let st' := { st with cv := st.cv + r.dValid, ci := st.ci + r.dInvalid }
           let vb := if r.verdict then "1" else "0"
